@@ -45,7 +45,8 @@ type protected struct {
 
 func newCryptoWorld(w *kernel.World, plan *kernel.Plan, rng *kernel.RNG, prop string) (*cryptoWorld, error) {
 	cols := []colKind{{Name: "c1", Envelope: "acrablock"}, {Name: "c2", Envelope: "acrastruct"}}
-	pw, err := NewPgWorld(w, rng, PgWorldConfig{SchemaYAML: schemaYAML(cols), Clients: []string{owner, stranger}, ChunkMode: int(plan.Sw("chunk"))})
+	pw, err := NewPgWorld(w, rng, PgWorldConfig{SchemaYAML: schemaYAML(cols), Clients: []string{owner, stranger}, ChunkMode: int(plan.Sw("chunk")),
+		MySQL: plan.Sw("mysql") == 1, MyDeprecateEOF: plan.Sw("depeof") == 1})
 	if err != nil {
 		return nil, err
 	}
@@ -139,7 +140,15 @@ func (cw *cryptoWorld) reveal(p *protected, data, hash []byte, client string, pr
 		row[col] = cell
 		t1.Rows = [][][]byte{row}
 		name := []string{"", "", "c1", "c2"}[col]
-		run := cw.pw.RunSession(client, []Stmt{{SQL: "SELECT id, plain, " + name + " FROM t1 WHERE id = 1", Extended: true, ResultFormats: []int16{1}}})
+		st := Stmt{SQL: "SELECT id, plain, " + name + " FROM t1 WHERE id = 1", Extended: true, ResultFormats: []int16{1}}
+		if cw.pw.mysql {
+			// MySQL hands binary columns over as they are in both row protocols; alternate between them
+			st = Stmt{SQL: "SELECT id, plain, " + name + " FROM t1 WHERE id = 1"}
+			if len(cell)%2 == 1 {
+				st = Stmt{SQL: "SELECT id, plain, " + name + " FROM t1 WHERE id = ?", Extended: true, Args: []interface{}{int64(1)}}
+			}
+		}
+		run := cw.pw.RunSession(client, []Stmt{st})
 		r := revealed{name: "proxy-column"}
 		if len(cw.pw.Panics) > 0 {
 			r.panic = cw.pw.Panics[0]
@@ -194,7 +203,7 @@ func (C01) ID() string { return "C01" }
 func (C01) Explore(x *kernel.Explorer, seed uint64) {
 	r := kernel.NewRNG(seed, 0xc01)
 	for i := 0; i < 3 && !x.Expired(); i++ {
-		plan := &kernel.Plan{Prop: "C01", Seed: kernel.Mix(seed, uint64(i)), Swarm: map[string]int64{"chunk": int64(r.Intn(4))}}
+		plan := &kernel.Plan{Prop: "C01", Seed: kernel.Mix(seed, uint64(i)), Swarm: map[string]int64{"mysql": int64(r.Intn(3) / 2), "depeof": int64(r.Intn(2)), "chunk": int64(r.Intn(4))}}
 		n := 2 + r.Intn(6)
 		for j := 0; j < n; j++ {
 			plan.Ops = append(plan.Ops, kernel.Op{ID: j + 1, Kind: "roundtrip", A: []int64{
@@ -296,7 +305,7 @@ func (C02) ID() string { return "C02" }
 func (C02) Explore(x *kernel.Explorer, seed uint64) {
 	r := kernel.NewRNG(seed, 0xc02)
 	for i := 0; i < 3 && !x.Expired(); i++ {
-		plan := &kernel.Plan{Prop: "C02", Seed: kernel.Mix(seed, uint64(i)), Swarm: map[string]int64{"chunk": int64(r.Intn(4))}}
+		plan := &kernel.Plan{Prop: "C02", Seed: kernel.Mix(seed, uint64(i)), Swarm: map[string]int64{"mysql": int64(r.Intn(3) / 2), "depeof": int64(r.Intn(2)), "chunk": int64(r.Intn(4))}}
 		n := 2 + r.Intn(6)
 		for j := 0; j < n; j++ {
 			plan.Ops = append(plan.Ops, kernel.Op{ID: j + 1, Kind: "cross", A: []int64{
@@ -391,7 +400,7 @@ func (C03) ID() string { return "C03" }
 func (C03) Explore(x *kernel.Explorer, seed uint64) {
 	r := kernel.NewRNG(seed, 0xc03)
 	for i := 0; i < 2 && !x.Expired(); i++ {
-		plan := &kernel.Plan{Prop: "C03", Seed: kernel.Mix(seed, uint64(i)), Swarm: map[string]int64{"chunk": 0}}
+		plan := &kernel.Plan{Prop: "C03", Seed: kernel.Mix(seed, uint64(i)), Swarm: map[string]int64{"chunk": 0, "mysql": int64(r.Intn(3) / 2), "depeof": int64(r.Intn(2))}}
 		for j := 0; j < 2; j++ {
 			plan.Ops = append(plan.Ops, kernel.Op{ID: j + 1, Kind: "mutate", A: []int64{int64(r.Intn(len(protectEntries))), int64(r.Intn(3)), int64(r.Intn(1000))}})
 		}
